@@ -266,6 +266,9 @@ func NewWorld(t *rapid.T, b Bounds) *World {
 			if rapid.IntRange(0, 3).Draw(t, "over128") == 0 {
 				fb.MinRows, fb.MaxRows = 129, 260 // a few hundred rows: thresholds of 64, 128, 256
 			}
+			if rapid.IntRange(0, 5).Draw(t, "over512") == 0 {
+				fb.MinRows, fb.MaxRows, fb.MaxCols = 520, 700, 3 // thresholds of 256 and 512 rows, on halves and quarters too
+			}
 			fb.Clustered = rapid.Bool().Draw(t, "clustered")
 			if fb.Clustered && fb.MinRows < 100 {
 				fb.MinRows = 100 // room for a run to come back
